@@ -2080,3 +2080,56 @@ def gen_bond_match_shape():
         return ('bondmatch', False, f'translator: unsupported {e}')
     return ('bondmatch: statements of Orientations._distances (minimum-image distances between the first-frame positions of the two selections), _matching_matrix '
             '(cut-off 1.5 x the smallest distance, first four satellites below it per centre) and the two selections are the ones the C18 oracle and model assume', True, 'ok')
+
+
+# ---------------------------------------------------------------- unit: shape of the two radial-distribution functions (C11)
+def gen_rdf_shape():
+    """Statement-level check against what Model.C11 and the C11 oracle transcribe: shell edges np.arange(0, max_dist + resolution, resolution), right-closed
+    np.digitize with one overflow bin that is dropped at the end, minimum-image distances from the diffusing atoms to all atoms per frame, one np.bincount per
+    (state, symbol); for species pairs np.histogram over the same edges divided by particle density x 4/3 pi ((r + dr)^3 - r^3)."""
+    try:
+        tree = _parse('rdf.py')
+        f = _find_func(tree, None, 'radial_distribution')
+        src = [ast.unparse(s) for s in _stmts(f)]
+        need = ['trajectory = transitions.trajectory', 'sites = transitions.sites', 'base_structure = trajectory.get_structure(0)', 'lattice = trajectory.get_lattice()',
+                'coords = trajectory.positions', 'sp_coords = trajectory.filter(floating_specie).positions', 'states2str = _get_states(sites.labels)',
+                'states_array = _get_states_array(transitions, sites.labels)', 'symbol_indices = _get_symbol_indices(base_structure)',
+                'bins = np.arange(0, max_dist + resolution, resolution)', 'length = len(bins) + 1', 'n_steps = len(trajectory)', 'return ret']
+        for n in need:
+            if n not in src:
+                raise Unsupported('radial_distribution: missing `%s`' % n)
+        loops = [s for s in _stmts(f) if isinstance(s, ast.For)]
+        if len(loops) != 2:
+            raise Unsupported('radial_distribution: %d loops' % len(loops))
+        body = [ast.unparse(s) for s in loops[0].body]
+        want = ['t_coords = coords[i]', 't_sp_coords = sp_coords[i]', 'dists = lattice.get_all_distances(t_sp_coords, t_coords)', 'rdf = np.digitize(dists, bins, right=True)',
+                'states = np.unique(states_array[i], axis=0)', 't_states = states_array[i]',
+                'for state in states:\n    k_idx = np.argwhere(t_states == state)\n    state_str = states2str[state]\n    for symbol, symbol_idx in symbol_indices.items():\n'
+                '        rdf_state = rdf[k_idx, symbol_idx].flatten()\n        rdfs[state_str, symbol] += np.bincount(rdf_state, minlength=length)']
+        if body != want:
+            k = next((i for i, (a, b) in enumerate(zip(body, want)) if a != b), min(len(body), len(want)))
+            raise Unsupported('radial_distribution frame loop statement %d: %s' % (k, body[k][:200] if k < len(body) else '<missing>'))
+        fin = ast.unparse(loops[1])
+        for n in ('for (state, symbol), values in rdfs.items():', 'x=bins', 'y=values[:-1]', 'label=symbol', 'state=state', 'ret.setdefault(state, RDFCollection())',
+                  'ret[state].append(rdf_data)'):
+            if n not in fin:
+                raise Unsupported('radial_distribution result loop: missing `%s`' % n)
+        g = _find_func(tree, None, 'radial_distribution_between_species')
+        src = [ast.unparse(s) for s in _stmts(g)]
+        need = ['coords_1 = trajectory.filter(specie_1).coords', 'coords_2 = trajectory.filter(specie_2).coords', 'lattice = trajectory.get_lattice()',
+                'particle_vol = num_atoms / lattice.volume',
+                'all_dists = np.concatenate([lattice.get_all_distances(coords_1[t, :, :], coords_2[t, :, :]) for t in range(num_time_steps)])',
+                'distances = all_dists.flatten()', 'bins = np.arange(0, max_dist + resolution, resolution)', 'rdf, _ = np.histogram(distances, bins=bins, density=False)',
+                'norm = normalize(bins)[:-1]', 'counts = rdf / norm', "return RDFData(x=bins[:-1], y=counts, label=f'{str1}-{str2}', state='')"]
+        for n in need:
+            if n not in src:
+                raise Unsupported('radial_distribution_between_species: missing `%s`' % n[:80])
+        nf = [x for x in g.body if isinstance(x, ast.FunctionDef) and x.name == 'normalize']
+        if len(nf) != 1 or [ast.unparse(x) for x in _stmts(nf[0])] != ['shell = (radius + resolution) ** 3 - radius ** 3', 'return particle_vol * (4 / 3) * np.pi * shell'] \
+                or [a.arg for a in nf[0].args.args] != ['radius']:
+            raise Unsupported('radial_distribution_between_species: normalisation')
+    except Unsupported as e:
+        return ('rdfshape', False, f'translator: unsupported {e}')
+    return ('rdfshape: statements of radial_distribution (edges, right-closed digitize with an overflow bin dropped at the end, minimum-image distances per frame, one '
+            'bincount per (state, symbol)) and radial_distribution_between_species (histogram over the same edges / (particle density x 4/3 pi ((r + dr)^3 - r^3))) '
+            'are the ones Model.C11 and the C11 certificates transcribe', True, 'ok')
